@@ -1723,6 +1723,14 @@ class PSBTOut:
                 except ValueError:
                     raise ValueError(f"pubkey is not in WitnessScript {self}")
         elif self.redeem_script:
+            # the ScriptPubKey has to commit to the attached RedeemScript
+            if (
+                not script_pubkey.is_p2sh()
+                or self.redeem_script.hash160() != script_pubkey.commands[1]
+            ):
+                raise ValueError(
+                    "RedeemScript hash160 and ScriptPubKey hash160 do not match"
+                )
             for sec in self.named_pubs.keys():
                 try:
                     # this will raise a ValueError if it's not in there
